@@ -4,6 +4,7 @@ import Rare.Proofs.C07Num
 import Rare.Proofs.C07TrimLink
 import Rare.Proofs.C07Acc
 import Rare.Proofs.C07Mode
+import Rare.Proofs.C07Sorted
 import Rare.Spec.C07Mode
 /-!
 C07 – Aggregators compute the exact fold of their sample history.
@@ -642,5 +643,138 @@ example : StrictTotal bLt := bLt_strictTotal
 example : ∃ res, exAcc.groupsWith bLt [[98], [97]] = .ok res := ⟨_, rfl⟩
 example : ∀ op ∈ [AccOp.addGroup [103] none, AccOp.addData [99] (some exCount) [], AccOp.addData [99] (some exLast) []],
     op.isSample = false := by decide
+
+/-! ## counted and sorted accessors (GroupCount, ItemsSortedBy, ItemsSorted, ColumnCount, RowCount,
+OrderedColumns, OrderedRows) -/
+
+/-- `sorting.SortBy` over the keys of a map with a sorter that is a strict total order on the (name, value)
+pairs of those keys: the answer is a permutation of the keys, sorted, and the same for every map iteration
+order. -/
+theorem sorted_accessors (less : NVLess) (val : Bytes → Int) (hst : StrictTotal (keyLess less val)) (order : List Bytes) :
+    (orderedKeys less val order).Perm order ∧
+    (orderedKeys less val order).Pairwise (fun a b => (!keyLess less val b a) = true) ∧
+    (∀ order', order'.Perm order → orderedKeys less val order' = orderedKeys less val order) :=
+  orderedKeys_spec less val hst order
+
+/-- The sorters the commands use by default are strict total orders on the keys of any map:
+`NVNameSorter` = by name; `NVValueSorter` = larger value first, equal values by name. -/
+theorem default_sorters_total (val : Bytes → Int) :
+    StrictTotal (keyLess nvNameSorter val) ∧ StrictTotal (keyLess nvValueSorter val) ∧
+    (∀ a b, keyLess nvNameSorter val a b = bLt a b) ∧
+    (∀ a b, keyLess nvValueSorter val a b = if val a = val b then bLt a b else decide (val b < val a)) :=
+  ⟨nvName_strictTotal val, nvValue_strictTotal val, fun _ _ => rfl, keyLess_nvValue val⟩
+
+/-- `minSlice`: the first `count` items (all of them when there are fewer); a negative `count` panics
+(`rare histo -n -1` stops earlier, in `NewHistogram`). -/
+theorem minSlice_exact {α : Type} (items : List α) (count : Int) :
+    minSlice items count = if count < 0 then .error "slice bounds out of range" else .ok (items.take count.toNat) :=
+  minSlice_spec items count
+
+/-- Histogram counter: each key is stored once (`GroupCount` = number of distinct keys sampled with a valid
+increment) and `ItemsSortedBy(count, sorter)` is the first `count` entries of the sorted (key, fold) list,
+whatever the map order. -/
+theorem counter_items_sorted (h : List Bytes) (less : NVLess)
+    (hst : StrictTotal (keyLess less (Counter.run h).countOf)) (order : List Bytes)
+    (hp : order.Perm (akeys (Counter.run h).items)) (count : Int) :
+    let c := Counter.run h
+    (akeys c.items).Nodup ∧ c.groupCount = (akeys c.items).length ∧
+    (∀ k, k ∈ akeys c.items ↔ present (selKey k) (h.map parseCounter) = true) ∧
+    c.itemsSortedBy less order count =
+      (if count < 0 then .error "slice bounds out of range"
+       else .ok (((orderedKeys less c.countOf (akeys c.items)).map
+              fun k => (k, total (selKey k) (h.map parseCounter))).take count.toNat)) := by
+  intro c
+  have inv := counterInv_run h
+  have hmem : ∀ k, k ∈ akeys c.items ↔ present (selKey k) (h.map parseCounter) = true := by
+    intro k
+    rw [mem_akeys_iff, inv.items k]
+    split <;> simp_all
+  refine ⟨counter_keys_nodup h, by simp [Counter.groupCount, akeys], hmem, ?_⟩
+  unfold Counter.itemsSortedBy
+  rw [minSlice_spec, (orderedKeys_spec less c.countOf hst _).2.2 order hp]
+  have hval : ∀ k ∈ orderedKeys less c.countOf (akeys c.items), (k, c.countOf k) = (k, total (selKey k) (h.map parseCounter)) := by
+    intro k hk
+    have hk' := ((orderedKeys_spec less c.countOf hst _).1.mem_iff).mp hk
+    have := (hmem k).mp hk'
+    unfold Counter.countOf
+    rw [inv.items k, if_pos this]; rfl
+  rw [List.map_congr_left hval]
+
+theorem filterMap_keys {α : Type} (m : List (Bytes × α)) (ks : List Bytes) (h : ∀ k ∈ ks, (aget m k).isSome = true) :
+    (ks.filterMap fun k => (aget m k).map fun v => (k, v)).map (·.1) = ks := by
+  induction ks with
+  | nil => rfl
+  | cons k ks ih =>
+    have hk := h k (by simp)
+    obtain ⟨v, hv⟩ := Option.isSome_iff_exists.mp hk
+    simp only [List.filterMap_cons, hv, Option.map_some, List.map_cons]
+    rw [ih (fun k' hk' => h k' (List.mem_cons_of_mem _ hk'))]
+
+/-- Sub-key counter: `ItemsSorted(sorter)` lists every key exactly once, in sorted order, whatever the map order. -/
+theorem subkey_items_sorted (s : SubKeyCounter) (less : NVLess) (hst : StrictTotal (keyLess less s.countOf))
+    (order : List Bytes) (hp : order.Perm (akeys s.items)) :
+    (s.itemsSorted less order).map (·.1) = orderedKeys less s.countOf (akeys s.items) ∧
+    (∀ p ∈ s.itemsSorted less order, aget s.items p.1 = some p.2) := by
+  have hsame := (orderedKeys_spec less s.countOf hst _).2.2 order hp
+  have hall : ∀ k ∈ orderedKeys less s.countOf order, (aget s.items k).isSome = true := by
+    intro k hk
+    have := (List.mergeSort_perm order _).mem_iff.mp hk
+    exact (mem_akeys_iff s.items k).mp (hp.mem_iff.mp this)
+  refine ⟨?_, ?_⟩
+  · unfold SubKeyCounter.itemsSorted
+    rw [filterMap_keys s.items _ hall, hsame]
+  · intro p hpm
+    unfold SubKeyCounter.itemsSorted at hpm
+    obtain ⟨k, _, hk⟩ := List.mem_filterMap.mp hpm
+    cases hg : aget s.items k with
+    | none => rw [hg] at hk; cases hk
+    | some v => rw [hg] at hk; simp only [Option.map_some, Option.some.injEq] at hk; subst hk; exact hg
+
+/-- Table: every column / row is stored once (`ColumnCount`, `RowCount` count distinct names), and
+`OrderedColumns` / `OrderedRows` list each of them exactly once in sorted order, whatever the map order. -/
+theorem table_ordered (d : Bytes) (hd : d ≠ []) (h : List Bytes) (less : NVLess) :
+    let t := Table.run d h
+    (akeys t.cols).Nodup ∧ (akeys t.rows).Nodup ∧
+    t.columnCount = (akeys t.cols).length ∧ t.rowCount = (akeys t.rows).length ∧
+    (StrictTotal (keyLess less t.colTotal) → ∀ order, order.Perm (akeys t.cols) →
+      t.orderedColumns less order = t.orderedColumns less (akeys t.cols) ∧ (t.orderedColumns less order).Perm (akeys t.cols)) ∧
+    (StrictTotal (keyLess less t.rowSum) → ∀ order, order.Perm (akeys t.rows) →
+      (t.orderedRows less order).map (·.name) = orderedKeys less t.rowSum (akeys t.rows) ∧
+      ∀ row ∈ t.orderedRows less order, aget t.rows row.name = some row) := by
+  intro t
+  have inv := tableInv_run d hd h
+  refine ⟨inv.nodupCols, inv.nodupRows, by simp [Table.columnCount, akeys], by simp [Table.rowCount, akeys], ?_, ?_⟩
+  · intro hst order hp
+    have sp := orderedKeys_spec less t.colTotal hst (akeys t.cols)
+    unfold Table.orderedColumns
+    rw [sp.2.2 order hp]
+    exact ⟨rfl, sp.1⟩
+  · intro hst order hp
+    have sp := orderedKeys_spec less t.rowSum hst (akeys t.rows)
+    have hall : ∀ k ∈ orderedKeys less t.rowSum order, ∃ row, aget t.rows k = some row ∧ row.name = k := by
+      intro k hk
+      have := (List.mergeSort_perm order _).mem_iff.mp hk
+      have hs := (mem_akeys_iff t.rows k).mp (hp.mem_iff.mp this)
+      obtain ⟨row, hr⟩ := Option.isSome_iff_exists.mp hs
+      exact ⟨row, hr, (inv.rows k row hr).name⟩
+    unfold Table.orderedRows
+    rw [← sp.2.2 order hp]
+    refine ⟨?_, ?_⟩
+    · generalize orderedKeys less t.rowSum order = ks at hall
+      induction ks with
+      | nil => rfl
+      | cons k ks ih =>
+        obtain ⟨row, hr, hn⟩ := hall k (by simp)
+        simp only [List.filterMap_cons, hr, List.map_cons, hn]
+        rw [ih (fun k' hk' => hall k' (List.mem_cons_of_mem _ hk'))]
+    · intro row hrow
+      obtain ⟨k, hk, hkr⟩ := List.mem_filterMap.mp hrow
+      obtain ⟨row', hr', hn'⟩ := hall k hk
+      rw [hr'] at hkr; cases hkr
+      rw [hn']; exact hr'
+
+example : StrictTotal (keyLess nvValueSorter (Counter.run exHist).countOf) := nvValue_strictTotal _
+example : (akeys (Counter.run exHist).items).Perm (akeys (Counter.run exHist).items) := List.Perm.refl _
+example : minSlice [1, 2, 3] 2 = Except.ok [1, 2] ∧ minSlice [1, 2, 3] 7 = Except.ok [1, 2, 3] := ⟨rfl, rfl⟩
 
 end Rare.C07
